@@ -58,10 +58,6 @@ H("C14", "adt", _A, "thorough", "C14.e witness: MCCV lost without MCNK flag 0x40
 H("C14", "adt", _A, "thorough", "C14.e witness: MCLQ last in file cannot be parsed", ["c14e_mcnk_liquid_last_witness"], _mcnk,
   "concrete: one MCNK whose only sub-chunk is an MCLQ (81 vertices), nothing behind it", "one input", stubs=_ST2, timeout=2400,
   expect="witness:KF-C14-mclq-size")
-H("C14", "adt", _A, "thorough", "C14.g witness: the MTXF reader ignores the chunk size (MTXF directly in front of an MCNK, read the way parse_root_adt reads it)",
-  ["c14g_mtxf_reader_ignores_chunk_size_witness"],
-  ["builder::serializer::write_chunk", "builder::serializer::write_mcnk_chunk", "chunks::simple::MtxfChunk::read_le", "chunks::simple::parse_texture_flags"],
-  "concrete: MTXF [7] followed by one empty MCNK", "one input", stubs=_ST2, timeout=2400, expect="witness:KF-C14-mtxf-unbounded")
 H("C14", "adt", _A, "quick", "canary", ["c14_serializer_canary"], ["builder::serializer::calculate_mhdr_offsets"], "vacuity twin", "-",
   expect="canary", stubs=_ST)
 
@@ -76,7 +72,8 @@ OUTSIDE["C14"] = [
     "MCAL, MCSH, MCLV, MCMT, MCBB sub-chunk content; MCNK sub-chunk combinations other than the listed single-kind shapes; more than one terrain chunk; "
     "the 256 generated minimal chunks (write_minimal_mcnk_chunk)",
     "MH2O write_mh2o_chunk -> parse_mh2o_chunk (out of memory even for one layer); only the 12/24/16-byte header/instance/attribute records are decided",
-    "MAMP/MTXP/MBMH/MBBB/MBNV/MBMI chunks beyond write_chunk framing of MAMP; MODF/MMID/MWID chunk-level (not record-level) round trips",
+    "MTXF/MTXP/MBMH/MBBB/MBNV/MBMI readers vs. chunk size (defect KF-C14-mtxf-unbounded confirmed natively only: the solver witness ran out of memory "
+    "in the reader's terminating error path); MAMP/MTXP/blend-mesh chunks beyond write_chunk framing of MAMP and MTXF; MODF/MMID/MWID chunk-level (not record-level) round trips",
     "name lists with more than 3 names or names longer than 3 bytes, non-ASCII names; builder validation functions (validate_*_filename, placement reference checks)",
     "files of 4 GiB and more (u32 truncation of offsets), write_to_file (filesystem), to_bytes through std::io::Cursor<Vec<u8>>",
 ]
